@@ -183,6 +183,7 @@ func TestGenC18(t *testing.T) {
 		q.stat("race_children", 1)
 		q.stat("distinct_nontrivial", 1)
 		o.line("RACE variant=%d exit=%d races=%d done=%d", v, r.exit, races, b2i(strings.Contains(r.out, "RACE-SCENARIO done")))
+		q.checks++
 		// classify each report by the gbn functions of its two stacks
 		for _, rep := range strings.Split(r.out, "WARNING: DATA RACE")[1:] {
 			seen := map[string]bool{}
